@@ -54,8 +54,8 @@ prop("C04",
      level="proof",
      technique="Verus deductive proof: lock-step simulation invariant between the real InplaceInterpreter::execute_in (extracted verbatim) and a canonical Brainfuck small-step specification",
      design_ref="DESIGN.md section 4-U7, 5-C04",
-     text="Unbounded proof for every program shorter than 2^31 bytes, every input/fault oracle and every width (generic C): each outer-loop iteration is exactly one canonical step; the event log on return is the log of the canonical run, and Ok(true) is returned only when that run has halted. The callee contracts it relies on are discharged in the same check: CellType conversions/addition (Verus, unbounded) and the tape / Context operations (Kani, bounded in tape size).",
-     note="Assumes the tape view contracts (checked, bounded, in unit u2_tape), the Context::input/output oracle contracts (u2_tape) and the CellType ring contracts (proved in u1_cell; copied verbatim). Trusted: the canonical semantics in the unit template, vstd's str::as_bytes spec, Verus+Z3. Termination of the unlimited instance rests on the lock-step argument (not machine-checked).")
+     text="Unbounded proof for every program shorter than 2^31 bytes, every input/fault oracle and every width (generic C): each outer-loop iteration is exactly one canonical step; the event log on return is the log of the canonical run, and Ok(true) is returned only when that run has halted; a third extraction (LIMITED=false, total) proves TERMINATION whenever the program is balanced and its canonical run halts (measure N - n). The callee contracts it relies on are discharged in the same check: CellType conversions/addition (Verus, unbounded) and the tape / Context operations (Kani, bounded in tape size).",
+     note="Assumes the tape view contracts (checked, bounded, in unit u2_tape), the Context::input/output oracle contracts (u2_tape) and the CellType ring contracts (proved in u1_cell; copied verbatim). Trusted: the canonical semantics in the unit template, vstd's str::as_bytes spec, Verus+Z3.")
 
 prop("C07",
      units=[("verus", "u7_inplace", r"#limited"), ("kani", "u5_bcint_ops", None), ("kani", "u6_jit", None), ("kani", "u8_irint", None)],
